@@ -508,7 +508,9 @@ inline void dom_dump(DOMNode* n, Dump& d, bool nsmode) {
             DOMAttr* a = (DOMAttr*)am->item(i);
             std::string s = "A|" + esc16(a->getNodeName()) + "|" + esc16(a->getValue()) + "|?";
             s += a->getSpecified() ? "|spec" : "|dflt";
-            if (nsmode) s += "|" + esc16(a->getNamespaceURI() ? a->getNamespaceURI() : X16("").p()) + "|" + esc16(a->getLocalName());
+            // DOM Level 2 binds a bare xmlns attribute to the xmlns namespace, SAX2 reports it without one: both are as specified
+            if (nsmode && XMLString::equals(a->getNodeName(), XMLUni::fgXMLNSString) && XMLString::equals(a->getNamespaceURI(), XMLUni::fgXMLNSURIName)) s += "|?|" + esc16(a->getLocalName());
+            else if (nsmode) s += "|" + esc16(a->getNamespaceURI() ? a->getNamespaceURI() : X16("").p()) + "|" + esc16(a->getLocalName());
             else s += "|?|?";
             as.push_back(s);
         }
